@@ -9,6 +9,12 @@ use std::fmt;
 thread_local! {
     static STEPS: Cell<u64> = const { Cell::new(0) };
     static LIMIT: Cell<u64> = const { Cell::new(u64::MAX) };
+    /// count only: children of sequences and maps are dropped as soon as they are visited
+    static DISCARD: Cell<bool> = const { Cell::new(false) };
+}
+
+pub fn set_discard(on: bool) {
+    DISCARD.with(|d| d.set(on));
 }
 
 pub fn reset(limit: u64) {
@@ -177,17 +183,23 @@ impl<'de> Visitor<'de> for AnyVisitor {
     fn visit_seq<A: SeqAccess<'de>>(self, mut a: A) -> Result<AnyValue, A::Error> {
         step()?;
         let mut v = Vec::new();
+        let discard = DISCARD.with(|d| d.get());
         while let Some(x) = a.next_element::<AnyValue>()? {
-            v.push(x);
+            if !discard {
+                v.push(x);
+            }
         }
         Ok(AnyValue::Seq(v))
     }
     fn visit_map<A: MapAccess<'de>>(self, mut a: A) -> Result<AnyValue, A::Error> {
         step()?;
         let mut v = Vec::new();
+        let discard = DISCARD.with(|d| d.get());
         while let Some(k) = a.next_key::<AnyValue>()? {
             let x = a.next_value::<AnyValue>()?;
-            v.push((k, x));
+            if !discard {
+                v.push((k, x));
+            }
         }
         Ok(AnyValue::Map(v))
     }
